@@ -35,7 +35,7 @@ Ltac proj := cbn [segs unflushed unsynced snapfiles ckpts engine cache restoring
 (* ---------- the newest marker ---------- *)
 
 Definition maxN (l : list N) : N := fold_right N.max 0 l.
-Definition newest (ss : list seg) : N := maxN (markers (all_recs ss)).
+Definition newest (ss : list seg) : N := maxN (pmarkers (all_recs ss)).
 
 Lemma maxN_ge : forall l x, In x l -> x <= maxN l.
 Proof. induction l; simpl; intros x H; [destruct H|]. destruct H as [<-|H]; [lia|]. apply IHl in H. lia. Qed.
@@ -53,12 +53,20 @@ Qed.
 Lemma maxN_app : forall a b, maxN (a ++ b) = N.max (maxN a) (maxN b).
 Proof. induction a; simpl; intros; [lia|]. rewrite IHa. lia. Qed.
 
-Lemma newest_ge : forall ss i, In i (markers (all_recs ss)) -> i <= newest ss.
+Lemma newest_ge : forall ss i, In i (pmarkers (all_recs ss)) -> i <= newest ss.
 Proof. intros. apply maxN_ge. exact H. Qed.
 
 (* ---------- the invariant ---------- *)
 
 Definition hd_first (ss : list seg) : N := sfirst (hd (mkSeg 0 []) ss).
+
+(* in every crash image the last saved commit index is below i / a hard state is in the file *)
+Definition lc_all_lt (s : state) (i : N) : Prop :=
+  forall j, (j <= unflushed s)%nat -> last_commit (all_recs (drop_tail (segs s) j)) < i.
+Definition flushed_state (s : state) : Prop :=
+  forall j, (j <= unflushed s)%nat -> has_state (all_recs (drop_tail (segs s) j)) = true.
+(* the index of the incoming snapshot the raft loop is persisting (0: none) *)
+Definition pend_idx (s : state) : N := match pending s with Some r => r_snap r | None => 0 end.
 
 (* persistent part: holds in every state, also between a crash and the end of the restart *)
 Record PInv (s : state) (hi : N) : Prop := {
@@ -73,16 +81,17 @@ Record PInv (s : state) (hi : N) : Prop := {
   (* the newest snapshot marker is valid in every crash image, sits in a live segment, the live segments do
      not start after it, and it has its snap file and its checkpoint *)
   p_commit : forall j, (j <= unflushed s)%nat -> newest (segs s) <= last_commit (all_recs (drop_tail (segs s) j));
-  p_new_in : In (newest (segs s)) (markers (all_recs (segs s)));
+  p_new_in : In (newest (segs s)) (pmarkers (all_recs (segs s)));
   p_first : hd_first (segs s) <= newest (segs s);
   p_file : 0 < newest (segs s) ->
            In (newest (segs s)) (snapfiles s) /\ lookup (newest (segs s)) (ckpts s) = Some (range 0 (newest (segs s)));
   p_nozero : ~ In 0 (snapfiles s);
   p_nodup : NoDup (snapfiles s);
-  p_files_le : forall f, In f (snapfiles s) -> f <= hi;
+  (* a snap file above the log is the one of an incoming snapshot: the WAL held a hard state by then *)
+  p_files_le : forall f, In f (snapfiles s) -> f <= hi \/ flushed_state s;
   p_ckpts : forall i l, lookup i (ckpts s) = Some l -> l = range 0 i;
-  (* the WAL holds no record of an incoming snapshot (runs of a replica that never gets one: [local_only]) *)
-  p_local : local_recs (all_recs (segs s))
+  (* an incoming snapshot whose record was made valid jumped forward *)
+  p_jumps : forall h m, In (h, m) (jumps (all_recs (segs s))) -> h < m
 }.
 
 Definition rlast (s : state) (r : ready) : N := if 0 <? r_n r then r_last r else rs_last s.
@@ -92,10 +101,21 @@ Definition pubcl (s : state) (r : ready) (p : bool) (lc : N) : Prop :=
   if p then (if 0 <? r_cn r then published s = r_clast r else published s <= lc)
   else published s <= lc /\ (0 < r_cn r -> published s <= r_clast r).
 
+(* the record of the incoming snapshot i sits in the tail segment, written when the log ended at hi, followed by
+   markers of local snapshots and hard states only *)
+Definition snap_tail (s : state) (hi i : N) : Prop :=
+  exists pre sl a b, segs s = pre ++ [sl] /\ srecs sl = a ++ RSnapIn false hi i :: b /\ forallb tail_rec b = true.
+Definition ckpt_ok (s : state) (i : N) : Prop := lookup i (ckpts s) = Some (range 0 i).
+Definition snapfacts (s : state) (hi : N) (r : ready) : Prop :=
+  r_n r = 0 /\ r_cn r = 0 /\ r_hs r = true /\ r_commit r = r_snap r /\ hi = rs_last s /\ hi < r_snap r /\ r_snap r <= proposed s.
+(* snap file, checkpoint and WAL record of the incoming snapshot are there, the record is not valid yet *)
+Definition window (s : state) (hi : N) (r : ready) : Prop :=
+  ckpt_ok s (r_snap r) /\ In (r_snap r) (snapfiles s) /\ snap_tail s hi (r_snap r) /\ app s = ApSnapPrepared (r_snap r).
+
 Definition rd_inv (s : state) (hi : N) : Prop :=
   let lc := last_commit (all_recs (segs s)) in
   let facts r := (0 < r_n r -> r_first r = rs_last s + 1 /\ r_last r + 1 = r_first r + r_n r /\ r_last r <= proposed s)
-                 /\ (0 < r_cn r -> r_clast r <= rlast s r) /\ r_snap r = 0 in
+                 /\ (0 < r_cn r -> r_clast r <= rlast s r) in
   let unsaved r := hi = rs_last s
                    /\ (0 < r_n r -> wstate s = true \/ r_hs r = true)
                    /\ (r_hs r = true -> lc <= r_commit r /\ r_commit r <= rlast s r)
@@ -103,63 +123,246 @@ Definition rd_inv (s : state) (hi : N) : Prop :=
   let saved r := hi = rlast s r /\ (0 < r_cn r -> r_clast r <= lc) in
   match rdp s with
   | RdIdle => hi = rs_last s /\ published s <= lc
-  | RdBegun r false p => facts r /\ unsaved r /\ pubcl s r p lc /\ (p = true -> overlap r = false)
-  | RdSaving r p false => facts r /\ unsaved r /\ pubcl s r p lc /\ (p = true -> overlap r = false)
-  | RdBegun r true p => facts r /\ saved r /\ published s <= lc /\ pubcl s r p lc
-  | RdSaving r p true => facts r /\ saved r /\ wstate s = true /\ pubcl s r p lc
-  | RdCutting r p idx => facts r /\ saved r /\ idx = hi + 1 /\ unflushed s = 0%nat /\ wstate s = true /\ pubcl s r p lc
+  | RdBegun r false p =>
+    if 0 <? r_snap r
+    then snapfacts s hi r /\ lc_all_lt s (r_snap r) /\ flushed_state s
+         /\ (if p then published s = r_snap r else published s <= lc /\ published s < r_snap r)
+    else facts r /\ unsaved r /\ pubcl s r p lc /\ (p = true -> overlap r = false)
+  | RdSaving r p false =>
+    if 0 <? r_snap r
+    then p = true /\ snapfacts s hi r /\ lc_all_lt s (r_snap r) /\ published s = r_snap r /\ window s hi r
+    else facts r /\ unsaved r /\ pubcl s r p lc /\ (p = true -> overlap r = false)
+  | RdBegun r true p =>
+    if 0 <? r_snap r
+    then p = true /\ snapfacts s hi r /\ published s = r_snap r /\ window s hi r /\ lc = r_snap r
+         /\ (forall j, (0 < j <= unflushed s)%nat -> last_commit (all_recs (drop_tail (segs s) j)) < r_snap r)
+    else facts r /\ saved r /\ published s <= lc /\ pubcl s r p lc
+  | RdSaving r p true => if 0 <? r_snap r then False else facts r /\ saved r /\ wstate s = true /\ pubcl s r p lc
+  | RdCutting r p idx =>
+    if 0 <? r_snap r then False
+    else facts r /\ saved r /\ idx = hi + 1 /\ unflushed s = 0%nat /\ wstate s = true /\ pubcl s r p lc
   | RdAppended r => hi = rs_last s /\ published s <= lc
-  | RdSnapSaving _ _ | RdSnapSaved _ | RdSnapApply _ _ => False
+  | RdSnapSaving r fl =>
+    0 < r_snap r /\ snapfacts s hi r /\ lc_all_lt s (r_snap r) /\ flushed_state s /\ published s = r_snap r
+    /\ ckpt_ok s (r_snap r) /\ (fl = true -> In (r_snap r) (snapfiles s)) /\ app s = ApSnapPrepared (r_snap r)
+  | RdSnapSaved r => 0 < r_snap r /\ snapfacts s hi r /\ lc_all_lt s (r_snap r) /\ published s = r_snap r /\ window s hi r
+  | RdSnapApply r k => 0 < r_snap r /\ hi = r_snap r /\ published s = r_snap r /\ rs_last s < hi /\ r_snap r <= newest (segs s)
   end.
 
 Definition sn_before_marker (p : sn_pc) : bool :=
   match p with SnStarted | SnCkDone | SnCreated | SnFile => true | _ => false end.
 
+(* the apply loop is installing the incoming snapshot i: the raft loop has published it and is persisting it, or
+   its record is valid (and then it is the newest marker until the installation is over) *)
+Definition snap_pend (s : state) (hi i : N) : Prop := hi < i /\ pend_idx s = i /\ published s = i.
+Definition snap_done (s : state) (hi i : N) : Prop := i <= hi /\ newest (segs s) = i /\ i <= rd_done s /\ i <= published s.
+
+(* the apply loop is past PrepareSnapshot of an incoming snapshot (whose record may be valid already: the newest marker
+   is then above what is applied here) *)
+Definition snap_busy (s : state) : Prop :=
+  match app s with ApSnapPrepared _ | ApSnapRestoring _ _ => True | _ => False end.
+
 (* volatile part: holds while the node runs *)
 Record VInv (c : config) (s : state) (hi : N) : Prop := {
   v_rd : rd_inv s hi;
-  v_pub : published s <= hi;
+  v_pub : published s <= N.max hi (pend_idx s);
   v_nrel : (nrel s < length (segs s))%nat /\ sfirst (nth (nrel s) (segs s) (mkSeg 0 [])) <= newest (segs s);
-  v_latest : latest s <= newest (segs s) /\ (forall lat, ckp s = CkPurging lat -> lat <= newest (segs s));
+  v_latest : (latest s <= newest (segs s) \/ (in_window s = 1%nat /\ latest s = pend_idx s))
+             /\ (forall lat, ckp s = CkPurging lat -> lat <= newest (segs s));
   v_wstate : (wstate s = true -> wcommit s = last_commit (all_recs (segs s)))
              /\ hcommit s <= last_commit (all_recs (segs s));
   v_done : rd_done s <= last_commit (all_recs (segs s)) /\ rd_done s <= hi /\ rd_done s <= published s;
-  v_queue : Forall (fun b => (b_n b = 0 \/ b_last b <= published s) /\ b_snap b = 0) (queue s);
+  v_queue : Forall (fun b => (b_n b = 0 \/ b_last b <= published s /\ b_last b <= hi)
+                              /\ (0 < b_snap b -> b_n b = 0 /\ snap_pend s hi (b_snap b))) (queue s);
   v_applied : applied s <= published s;
   v_app : match app s with
           | ApIdle | ApDone | ApTrigger | ApTriggerDone => applied s <= rd_done s
           | ApFlushed => applied s <= rd_done s /\ cache s = []
           | ApTriggered i => i = applied s /\ applied s <= rd_done s /\ snapi s < applied s
-          | ApApplying b => applied s <= rd_done s /\ (b_n b = 0 \/ b_last b <= published s)
+          | ApApplying b => applied s <= rd_done s /\ (b_n b = 0 \/ b_last b <= published s /\ b_last b <= hi)
           | ApApplied b => (b_n b = 0 -> applied s <= rd_done s) /\ applied s <= N.max (rd_done s) (b_last b)
-          | ApSnapPrepare _ | ApSnapPrepared _ | ApSnapRestoring _ => False
+          | ApSnapPrepare i => applied s <= rd_done s /\ applied s < i /\ snap_pend s hi i
+          | ApSnapPrepared i => applied s <= rd_done s /\ applied s < i /\ (snap_pend s hi i \/ snap_done s hi i)
+          | ApSnapRestoring i k =>
+            applied s <= rd_done s /\ applied s < i /\ snap_done s hi i
+            /\ match k with
+               | O => restoring s = None
+               | S O => restoring s = Some i /\ engine s = None
+               | _ => (forall l, engine s = Some l -> l = range 0 i) /\ (forall j, restoring s = Some j -> j = i)
+               end
           end;
-  v_engine : forall l, engine s = Some l -> l = range 0 (applied s);
-  v_snapi : newest (segs s) <= snapi s /\ snapi s <= applied s;
+  v_engine : match app s with
+             | ApSnapRestoring _ (S _) => True
+             | _ => forall l, engine s = Some l -> l = range 0 (applied s)
+             end;
+  v_snapi : snapi s <= applied s /\ (newest (segs s) <= snapi s \/ snap_busy s);
   v_sns : forall i p, sn_lookup i (sns s) = Some p ->
             0 < i /\ i <= rd_done s /\ i <= snapi s
-            /\ (sn_before_marker p = true -> ~ In i (markers (all_recs (segs s))))
+            /\ (sn_before_marker p = true -> ~ In i (pmarkers (all_recs (segs s))))
             /\ (newest (segs s) < i -> p <> SnStarted -> lookup i (ckpts s) = Some (range 0 i))
             /\ (newest (segs s) < i -> p = SnFile -> In i (snapfiles s))
             /\ (sn_before_marker p = false -> i <= newest (segs s));
-  v_files : forall f, In f (snapfiles s) -> newest (segs s) < f -> sn_lookup f (sns s) = Some SnFile;
+  v_files : forall f, In f (snapfiles s) -> newest (segs s) < f ->
+            sn_lookup f (sns s) = Some SnFile \/ (f = pend_idx s /\ in_window s = 1%nat);
   v_pgsnap : forall f, pg_snap s = Some f -> f < newest (segs s);
-  v_pgwal : (pg_wal s = true -> (0 < nrel s)%nat) /\ restoring s = None;
+  (* an incoming snapshot's record that was never made valid: older than the newest marker, or its file is gone, or
+     it is the one being persisted right now *)
+  v_unval : forall i, In i (unvalidated (all_recs (segs s))) -> i <= newest (segs s) \/ ~ In i (snapfiles s) \/ (0 < i /\ i = pend_idx s);
+  v_pgwal : (pg_wal s = true -> (0 < nrel s)%nat)
+            /\ (forall j, restoring s = Some j -> exists k, app s = ApSnapRestoring j (S k));
   v_ck : match ckp s with
-         | CkSaving i l => l = range 0 i /\ newest (segs s) < i
+         | CkSaving i l => l = range 0 i /\ (newest (segs s) <> i /\ i <= hi)
                            /\ (forall k p, sn_lookup k (sns s) = Some p -> k <= i /\ (k = i -> p = SnStarted))
                            /\ lookup i (ckpts s) = None /\ (forall j, app s = ApTriggered j -> j = i)
          | _ => True
          end
 }.
 
+(* the raft loop's clause when only files (snap files, checkpoints) change: those of a pending incoming snapshot stay *)
+Lemma rd_inv_files : forall s s' hi,
+  rd_inv s hi -> segs s' = segs s -> unflushed s' = unflushed s -> rdp s' = rdp s -> rs_last s' = rs_last s ->
+  published s' = published s -> wstate s' = wstate s -> hcommit s' = hcommit s -> proposed s' = proposed s ->
+  (app s' = app s \/ (forall i, app s <> ApSnapPrepared i)) ->
+  (forall i, 0 < i -> i = pend_idx s -> ckpt_ok s i -> ckpt_ok s' i) ->
+  (forall i, 0 < i -> i = pend_idx s -> In i (snapfiles s) -> In i (snapfiles s')) ->
+  rd_inv s' hi.
+Proof.
+  intros s s' hi H E1 E2 E3 E4 E5 E6 E7 E8 Ea Hc Hf.
+  unfold rd_inv, window, snapfacts, snap_tail, lc_all_lt, flushed_state, pubcl, rlast in *.
+  unfold pend_idx, pending in Hc, Hf.
+  rewrite E1, E2, E3, E4, E5, E6, E7, E8.
+  assert (Hap : forall i, app s = ApSnapPrepared i -> app s' = ApSnapPrepared i).
+  { intros i Hi. destruct Ea as [Ea|Ea]; [congruence | exfalso; exact (Ea i Hi)]. }
+  destruct (rdp s) as [|r sv pb|r pb apd|r pb idx|r|r fl|r|r k]; auto.
+  - destruct (0 <? r_snap r) eqn:Q; [|exact H]. apply N.ltb_lt in Q. destruct sv; intuition.
+  - destruct (0 <? r_snap r) eqn:Q; [|exact H]. apply N.ltb_lt in Q. destruct apd; intuition.
+  - assert (Q : (0 <? r_snap r) = true) by (apply N.ltb_lt; tauto). rewrite Q in *. intuition.
+  - assert (Q : (0 <? r_snap r) = true) by (apply N.ltb_lt; tauto). rewrite Q in *. intuition.
+Qed.
+
+(* a pending incoming snapshot is ahead of the log *)
+Lemma pend_above : forall s hi, rd_inv s hi -> 0 < pend_idx s -> hi < pend_idx s.
+Proof.
+  intros s hi H Hp. unfold rd_inv, snapfacts, pend_idx, pending in *.
+  destruct (rdp s) as [|r sv pb|r pb apd|r pb idx|r|r fl|r|r k]; try lia;
+    try (destruct (0 <? r_snap r) eqn:Q; [|lia]); try (destruct sv); try (destruct apd); intuition.
+Qed.
+
+(* the clauses about the apply loop and its queue, as functions of the state (for the frame lemmas below) *)
+Definition app_inv (s : state) (hi : N) : Prop :=
+  match app s with
+  | ApIdle | ApDone | ApTrigger | ApTriggerDone => applied s <= rd_done s
+  | ApFlushed => applied s <= rd_done s /\ cache s = []
+  | ApTriggered i => i = applied s /\ applied s <= rd_done s /\ snapi s < applied s
+  | ApApplying b => applied s <= rd_done s /\ (b_n b = 0 \/ b_last b <= published s /\ b_last b <= hi)
+  | ApApplied b => (b_n b = 0 -> applied s <= rd_done s) /\ applied s <= N.max (rd_done s) (b_last b)
+  | ApSnapPrepare i => applied s <= rd_done s /\ applied s < i /\ snap_pend s hi i
+  | ApSnapPrepared i => applied s <= rd_done s /\ applied s < i /\ (snap_pend s hi i \/ snap_done s hi i)
+  | ApSnapRestoring i k =>
+    applied s <= rd_done s /\ applied s < i /\ snap_done s hi i
+    /\ match k with
+       | O => restoring s = None
+       | S O => restoring s = Some i /\ engine s = None
+       | _ => (forall l, engine s = Some l -> l = range 0 i) /\ (forall j, restoring s = Some j -> j = i)
+       end
+  end.
+Definition queue_inv (s : state) (hi : N) : Prop :=
+  Forall (fun b => (b_n b = 0 \/ b_last b <= published s /\ b_last b <= hi) /\ (0 < b_snap b -> b_n b = 0 /\ snap_pend s hi (b_snap b))) (queue s).
+
+Lemma vinv_app_inv : forall c s hi, VInv c s hi -> app_inv s hi.
+Proof. intros c s hi []. exact v_app0. Qed.
+Lemma vinv_queue_inv : forall c s hi, VInv c s hi -> queue_inv s hi.
+Proof. intros c s hi []. exact v_queue0. Qed.
+
+(* the log grows while no incoming snapshot is pending: nothing changes for the apply loop *)
+Lemma app_inv_grow : forall s s' hi hi',
+  app s' = app s -> applied s' = applied s -> rd_done s' = rd_done s -> published s' = published s -> snapi s' = snapi s ->
+  cache s' = cache s -> newest (segs s') = newest (segs s) -> restoring s' = restoring s -> engine s' = engine s ->
+  pend_idx s = 0 -> pend_idx s' = 0 -> hi <= hi' -> app_inv s hi -> app_inv s' hi'.
+Proof.
+  intros s s' hi hi' E1 E2 E3 E4 E5 E6 E7 E8 E9 P0 P1 L H.
+  unfold app_inv, snap_pend, snap_done in *. rewrite E1, E2, E3, E4, E5, E6, E7, E8, E9, P1. rewrite P0 in H.
+  destruct (app s); intuition (try lia; auto).
+Qed.
+
+Lemma queue_inv_grow : forall s s' hi hi',
+  queue s' = queue s -> published s' = published s -> pend_idx s = 0 -> pend_idx s' = 0 -> hi <= hi' -> queue_inv s hi -> queue_inv s' hi'.
+Proof.
+  intros s s' hi hi' E1 E2 P0 P1 L H. unfold queue_inv, snap_pend in *. rewrite E1, E2, P1. rewrite P0 in H.
+  eapply Forall_impl; [|exact H]. simpl. intros b. intuition (try lia; auto).
+Qed.
+
+(* the raft loop publishes: nothing of the apply loop's or the queue's clauses is about a snapshot that is published
+   already (an incoming snapshot is published once, and only when none is in the apply loop's hands) *)
+Lemma app_inv_pub : forall s s' hi,
+  app s' = app s -> applied s' = applied s -> rd_done s' = rd_done s -> snapi s' = snapi s ->
+  cache s' = cache s -> newest (segs s') = newest (segs s) -> restoring s' = restoring s -> engine s' = engine s ->
+  pend_idx s' = pend_idx s -> published s <= published s' -> (published s < pend_idx s \/ pend_idx s = 0) ->
+  app_inv s hi -> app_inv s' hi.
+Proof.
+  intros s s' hi E1 E2 E3 E5 E6 E7 E8 E9 P1 L D H.
+  unfold app_inv, snap_pend, snap_done in *. rewrite E1, E2, E3, E5, E6, E7, E8, E9, P1.
+  destruct (app s); intuition (try lia; auto).
+Qed.
+
+Lemma queue_inv_pub : forall s s' hi,
+  queue s' = queue s -> pend_idx s' = pend_idx s -> published s <= published s' -> (published s < pend_idx s \/ pend_idx s = 0) ->
+  queue_inv s hi -> queue_inv s' hi.
+Proof.
+  intros s s' hi E1 P1 L D H. unfold queue_inv, snap_pend in *. rewrite E1, P1.
+  eapply Forall_impl; [|exact H]. simpl. intros b. intuition (try lia; auto).
+Qed.
+
+(* the raft loop signals raftDone for more (rd_done grows); pend_idx may drop to 0 when no clause needs it *)
+Lemma app_inv_done : forall s s' hi,
+  app s' = app s -> applied s' = applied s -> published s' = published s -> snapi s' = snapi s ->
+  cache s' = cache s -> newest (segs s') = newest (segs s) -> restoring s' = restoring s -> engine s' = engine s ->
+  (pend_idx s' = pend_idx s \/ hi >= pend_idx s) -> rd_done s <= rd_done s' ->
+  app_inv s hi -> app_inv s' hi.
+Proof.
+  intros s s' hi E1 E2 E4 E5 E6 E7 E8 E9 P1 L H.
+  unfold app_inv, snap_pend, snap_done in *. rewrite E1, E2, E4, E5, E6, E7, E8, E9.
+  destruct (app s); destruct P1 as [P1|P1]; rewrite ?P1; intuition (try lia; auto).
+Qed.
+
+(* the marker of a local snapshot (at or below what is applied) does not overtake an incoming snapshot's *)
+Lemma app_inv_marker : forall s s' hi i,
+  app s' = app s -> applied s' = applied s -> rd_done s' = rd_done s -> published s' = published s -> snapi s' = snapi s ->
+  cache s' = cache s -> restoring s' = restoring s -> engine s' = engine s -> pend_idx s' = pend_idx s ->
+  newest (segs s') = N.max (newest (segs s)) i -> i <= applied s ->
+  app_inv s hi -> app_inv s' hi.
+Proof.
+  intros s s' hi i E1 E2 E3 E4 E5 E6 E8 E9 P1 En Li H.
+  unfold app_inv, snap_pend, snap_done in *. rewrite E1, E2, E3, E4, E5, E6, E8, E9, P1, En.
+  destruct (app s); intuition (try lia; auto).
+Qed.
+
+Lemma queue_inv_same : forall s s' hi,
+  queue s' = queue s -> published s' = published s -> (pend_idx s' = pend_idx s \/ hi >= pend_idx s) -> queue_inv s hi -> queue_inv s' hi.
+Proof.
+  intros s s' hi E1 E2 P1 H. unfold queue_inv, snap_pend in *. rewrite E1, E2.
+  eapply Forall_impl; [|exact H]. simpl. intros b [A B]. split; [exact A|].
+  intros Hb. destruct (B Hb) as [X0 [X1 [X2 X3]]]. destruct P1 as [P1|P1]; [rewrite P1; auto | lia].
+Qed.
+
+(* pend_idx of an updated state in the goal, when no incoming snapshot is pending there *)
+Ltac pend_goal0 Qs :=
+  repeat match goal with
+         | |- context [pend_idx ?t] =>
+           tryif is_var t then fail
+           else replace (pend_idx t) with 0 by (unfold pend_idx, pending; proj; rewrite ?Qs; reflexivity)
+         end.
+
 (* between a crash and the end of the restart *)
 Definition RInv (s : state) : Prop :=
   unflushed s = 0%nat /\ rdp s = RdIdle /\ app s = ApIdle /\ sns s = [] /\ ckp s = CkIdle /\ pg_wal s = false
   /\ pg_snap s = None /\ queue s = [] /\ wstate s = false
-  /\ (forall i, restoring s = Some i -> i = newest (segs s) /\ 0 < i) /\
+  /\ (forall i, restoring s = Some i -> i = newest (segs s) /\ 0 < i)
+  /\ (forall i, In i (unvalidated (all_recs (segs s))) ->
+        i <= newest (segs s) \/ ~ In i (snapfiles s)
+        \/ (rc s = RcStart /\ last_commit (all_recs (segs s)) < i)) /\
   match rc s with
-  | RcStart => latest s = 0 /\ (forall l, engine s = Some l -> l = range 0 (newest (segs s)))
+  | RcStart => latest s = 0
   | RcChosen j => j = newest (segs s) /\ 0 < j /\ latest s = j /\ (forall f, In f (snapfiles s) -> f <= j)
                   /\ (forall l, engine s = Some l -> l = range 0 j)
   | RcRestored j => j = newest (segs s) /\ 0 < j /\ latest s = j /\ (forall f, In f (snapfiles s) -> f <= j)
@@ -174,7 +377,7 @@ Definition fixed (c : config) : Prop := persist_first c = true /\ clean_orphans 
 (* schedule hypothesis: fewer snapshot goroutines than files the snap purge keeps are between "snap file written"
    and "WAL marker written" (the code keeps at least 2 files, so one such goroutine is always fine) *)
 Definition win_count (l : list (N * sn_pc)) : nat := length (filter (fun q => sn_pc_eqb (snd q) SnFile) l).
-Definition window_ok (c : config) (s : state) : Prop := (win_count (sns s) < eff_keep_snap c)%nat.
+Definition window_ok (c : config) (s : state) : Prop := (win_count (sns s) + in_window s < eff_keep_snap c)%nat.
 
 Definition Inv (c : config) (s : state) : Prop :=
   exists hi, PInv s hi /\ (if running s then VInv c s hi else RInv s).
@@ -185,8 +388,8 @@ Lemma pinv_frame : forall s s' hi,
   segs s' = segs s -> unflushed s' = unflushed s -> snapfiles s' = snapfiles s -> ckpts s' = ckpts s ->
   acked s' = acked s -> proposed s' = proposed s -> PInv s hi -> PInv s' hi.
 Proof.
-  intros s s' hi E1 E2 E3 E4 E5 E6 [].
-  constructor; rewrite ?E1, ?E2, ?E3, ?E4, ?E5, ?E6; auto.
+  intros s s' hi E1 E2 E3 E4 E5 E6 []. unfold flushed_state in *.
+  constructor; unfold flushed_state; rewrite ?E1, ?E2, ?E3, ?E4, ?E5, ?E6; auto.
 Qed.
 
 (* the checkpoint clause when the apply loop is not (any more) waiting for the checkpoint to start *)
@@ -199,7 +402,86 @@ Ltac ck_app v_ck0 :=
     intros; try discriminate; try (apply K; congruence)
   end.
 
-Ltac vinv_split HV := destruct HV; constructor; proj; try assumption; try exact I; try (solve [match goal with K0 : match ckp _ with _ => _ end |- _ => ck_app K0 end]);
+(* the pending incoming snapshot of an updated state whose raft loop pc is the one of the state it comes from *)
+Ltac pend_keep_goal :=
+  repeat match goal with
+         | |- context [pend_idx ?t] =>
+           lazymatch t with
+           | context [set_rdp] => fail
+           | _ => tryif is_var t then fail
+                  else match goal with
+                       | s0 : state |- _ => replace (pend_idx t) with (pend_idx s0) by (unfold pend_idx, pending; proj; reflexivity)
+                       end
+           end
+         end.
+
+(* the clauses that look at the apply loop's pc only to know that it is not restoring an incoming snapshot *)
+Ltac app_side :=
+  try (solve [match goal with
+              | Ea : app _ = _, V : _ |- forall l, engine _ = Some l -> _ => rewrite Ea in V; exact V
+              end]);
+  try (solve [match goal with
+              | Ea : app _ = _, V : snapi _ <= applied _ /\ _ |- snapi _ <= applied _ /\ _ =>
+                rewrite Ea in V; destruct V as [V1 [V2|V2]]; [split; [exact V1 | left; exact V2] | first [contradiction | split; [exact V1 | right; exact I]]]
+              end]);
+  try (solve [match goal with
+              | V : _ /\ (forall j, restoring _ = Some j -> exists k, app _ = _) |- _ /\ (forall j, restoring _ = Some j -> exists k, _ = _) =>
+                split; [exact (proj1 V) | let j := fresh "j" in let Hj := fresh "Hj" in let k := fresh "k" in let Hk := fresh "Hk" in
+                                          intros j Hj; destruct (proj2 V j Hj) as [k Hk]; congruence]
+              end]).
+
+(* the checkpoint clause when the log grows *)
+Lemma ck_inv_grow : forall s hi hi' nw, hi <= hi' ->
+  match ckp s with
+  | CkSaving i l => l = range 0 i /\ (nw <> i /\ i <= hi)
+                    /\ (forall k p, sn_lookup k (sns s) = Some p -> k <= i /\ (k = i -> p = SnStarted))
+                    /\ lookup i (ckpts s) = None /\ (forall j, app s = ApTriggered j -> j = i)
+  | _ => True
+  end ->
+  match ckp s with
+  | CkSaving i l => l = range 0 i /\ (nw <> i /\ i <= hi')
+                    /\ (forall k p, sn_lookup k (sns s) = Some p -> k <= i /\ (k = i -> p = SnStarted))
+                    /\ lookup i (ckpts s) = None /\ (forall j, app s = ApTriggered j -> j = i)
+  | _ => True
+  end.
+Proof. intros s hi hi' nw L H. destruct (ckp s); auto. intuition lia. Qed.
+
+(* the snap files above the newest marker when no incoming snapshot is pending (the old state's pend_idx is rewritten to 0) *)
+Ltac files_local :=
+  match goal with
+  | V : forall f, In f (snapfiles _) -> _ -> _ \/ _, P : PInv _ _ |- forall f, In f (snapfiles _) -> _ =>
+    let f := fresh "f" in let Hf := fresh "Hf" in let Hn := fresh "Hn" in let X := fresh "X" in
+    intros f Hf Hn; destruct (V f Hf Hn) as [X|[X _]]; [left; exact X | exfalso; rewrite X in Hf; exact (p_nozero _ _ P Hf)]
+  end.
+Ltac latest_local E :=
+  match goal with
+  | V : (latest _ <= _ \/ _) /\ _ |- (latest _ <= _ \/ _) /\ _ =>
+    let A := fresh "A" in let B := fresh "B" in
+    destruct V as [[A|[A _]] B]; [split; [left; exact A | exact B] | exfalso; unfold in_window in A; rewrite E in A;
+      repeat match goal with G : (0 <? r_snap _) = _ |- _ => rewrite G in A end; try discriminate A]
+  end.
+
+Ltac rd_side :=
+  try (solve [match goal with
+              | V : rd_inv ?s0 _ |- rd_inv _ _ =>
+                apply (rd_inv_files s0); [exact V | reflexivity | reflexivity | reflexivity | reflexivity | reflexivity | reflexivity | reflexivity | reflexivity
+                                         | first [left; reflexivity | right; intros; congruence]
+                                         | intros ? ? ? X; exact X | intros ? ? ? X; exact X]
+              end]).
+
+Ltac win_keep_goal :=
+  repeat match goal with
+         | |- context [in_window ?t] =>
+           lazymatch t with
+           | context [set_rdp] => fail
+           | _ => tryif is_var t then fail
+                  else match goal with
+                       | s0 : state |- _ => replace (in_window t) with (in_window s0) by (unfold in_window; proj; reflexivity)
+                       end
+           end
+         end.
+
+Ltac vinv_split HV := destruct HV; constructor; unfold snap_pend, snap_done, snap_busy in *; proj; try pend_keep_goal; try win_keep_goal; try assumption; try exact I; app_side; rd_side; try (solve [match goal with K0 : match ckp _ with _ => _ end |- _ => ck_app K0 end]);
   try (solve [match goal with E0 : ckp _ = _ |- match ckp _ with _ => _ end => rewrite E0; exact I end]).
 Ltac pframe s0 := apply (pinv_frame s0); [reflexivity|reflexivity|reflexivity|reflexivity|reflexivity|reflexivity|assumption].
 
@@ -236,18 +518,31 @@ Ltac start_step H hi HP HV :=
   end;
   unfold step in H; step_inv H.
 
+(* a step of the raft loop that changes its program counter only and keeps the pending incoming snapshot *)
+Lemma vinv_set_rdp : forall c s hi x,
+  VInv c s hi -> rd_inv (set_rdp s x) hi -> pend_idx (set_rdp s x) = pend_idx s -> in_window (set_rdp s x) = in_window s ->
+  VInv c (set_rdp s x) hi.
+Proof.
+  intros c s hi x HV Hrd Hp Hw. destruct HV.
+  constructor; unfold snap_pend, snap_done, snap_busy in *; proj; rewrite ?Hp, ?Hw; auto.
+Qed.
+
+Ltac pend_eq E := unfold pend_idx, pending, in_window; proj; rewrite ?E;
+  repeat match goal with G : (0 <? r_snap _) = _ |- _ => rewrite G end; try reflexivity.
+
 Lemma step_rd_advance : forall c s s', Inv c s -> step c s EvRdAdvance = Ok s' -> Inv c s'.
 Proof.
   intros c s s' HI H. start_step H hi HP HV.
   exists hi. split; [pframe s|].
   unfold running in *. proj. destruct (rc s) eqn:R; try (not_running HV).
-  vinv_split HV. unfold rd_inv in *. proj. rewrite E in v_rd0. tauto.
+  apply vinv_set_rdp; [exact HV | | pend_eq E | pend_eq E].
+  destruct HV. unfold rd_inv in *. proj. rewrite E in v_rd0. tauto.
 Qed.
 
 (* ---------- appending records to the WAL ---------- *)
 
-Lemma newest_app_tail_nomark : forall ss rs, ss <> [] -> markers rs = [] -> newest (app_tail ss rs) = newest ss.
-Proof. intros. unfold newest. rewrite app_tail_recs by auto. rewrite markers_app, H0, app_nil_r. reflexivity. Qed.
+Lemma newest_app_tail_nomark : forall ss rs, ss <> [] -> pmarkers rs = [] -> newest (app_tail ss rs) = newest ss.
+Proof. intros. unfold newest. rewrite app_tail_recs by auto. rewrite pmarkers_app, H0, app_nil_r. reflexivity. Qed.
 
 Lemma pinv_segs_nonempty : forall s hi, PInv s hi -> segs s <> [].
 Proof. intros s hi [C _ _ _ _ _ _ _ _ _ _ _ _ _]. destruct (segs s); [destruct C | congruence]. Qed.
@@ -260,6 +555,22 @@ Proof. intros s hi P. eapply seg_chain_markers; [apply (p_chain _ _ P) | apply (
 
 Lemma pinv_lc0 : forall s hi, PInv s hi -> newest (segs s) <= last_commit (all_recs (segs s)).
 Proof. intros s hi P. pose proof (p_commit _ _ P 0%nat ltac:(lia)) as H. rewrite drop_tail_0 in H. exact H. Qed.
+
+Lemma has_state_app_l : forall a b, has_state a = true -> has_state (a ++ b) = true.
+Proof. intros. unfold has_state in *. rewrite existsb_app, H. reflexivity. Qed.
+
+(* appending records keeps a hard state in every crash image *)
+Lemma flushed_state_app_tail : forall s s' rs,
+  segs s <> [] -> segs s' = app_tail (segs s) rs -> (unflushed s' <= unflushed s + length rs)%nat ->
+  flushed_state s -> flushed_state s'.
+Proof.
+  intros s s' rs Hne Es Eu F j Hj. rewrite Es.
+  destruct (exists_last_seg (segs s) Hne) as [pre [sl E]]. rewrite E.
+  destruct (Nat.le_gt_cases (length rs) j) as [G|G].
+  - rewrite drop_tail_app_tail_ge by exact G. rewrite <- E. apply F. lia.
+  - rewrite drop_tail_app_tail_le by lia. rewrite app_tail_recs by (destruct pre; discriminate).
+    apply has_state_app_l. rewrite <- E. specialize (F 0%nat ltac:(lia)). rewrite drop_tail_0 in F. exact F.
+Qed.
 
 (* a Save: entries hi+1..hi' and possibly a hard state, flushed or (hard state only) left in the buffer *)
 Lemma pinv_save : forall s s' hi hi' (l : list N) (hs : bool) (c : N) (flushed : bool),
@@ -276,9 +587,9 @@ Proof.
   pose proof (pinv_segs_nonempty _ _ P) as Hne.
   pose proof (pinv_lc0 _ _ P) as Hlc0.
   set (rs := map REnt l ++ (if hs then [RState c] else [])) in *.
-  assert (Hm : markers rs = []) by apply markers_ents_state.
+  assert (Hm : pmarkers rs = []) by apply pmarkers_ents_state.
   assert (He : entries rs = l) by apply entries_ents_state.
-  destruct P as [C Ha Hp Ht Hh Hcm Hni Hf Hfile Hz Hnd Hfl Hck Hloc].
+  destruct P as [C Ha Hp Ht Hh Hcm Hni Hf Hfile Hz Hnd Hfl Hck Hjm].
   destruct Ht as [pre [sl [body [tl [Ess [Esl [Etl [Hst Hhead]]]]]]]].
   constructor; rewrite ?Es, ?Esf, ?Eck, ?Eac, ?Epr; auto.
   - rewrite lo_of_app_tail. eapply seg_chain_app_tail; eauto.
@@ -327,17 +638,18 @@ Proof.
         subst rs. rewrite El0 in *. simpl in *. destruct hs; simpl in *; [|lia].
         assert (j = 0%nat) by lia. subst j. simpl.
         rewrite <- Ess, app_tail_recs by auto. rewrite last_commit_snoc_state. specialize (Hc eq_refl). lia.
-  - rewrite newest_app_tail_nomark by auto. rewrite app_tail_recs by auto. rewrite markers_app, Hm, app_nil_r. exact Hni.
+  - rewrite newest_app_tail_nomark by auto. rewrite app_tail_recs by auto. rewrite pmarkers_app, Hm, app_nil_r. exact Hni.
   - rewrite newest_app_tail_nomark by auto. rewrite hd_first_app_tail. exact Hf.
   - rewrite newest_app_tail_nomark by auto. exact Hfile.
-  - intros f Hin. specialize (Hfl f Hin). lia.
-  - apply local_app_tail; auto. apply local_ents_state.
+  - intros f Hin. destruct (Hfl f Hin) as [A|A]; [left; lia | right].
+    eapply (flushed_state_app_tail s s' rs); eauto. rewrite Eu. destruct flushed; lia.
+  - intros h m Hin. rewrite app_tail_recs, jumps_app in Hin by auto. unfold rs in Hin. rewrite jumps_ents_state, app_nil_r in Hin. eauto.
 Qed.
 
 (* the WAL marker of the snapshot at i: appended and flushed *)
 Lemma newest_app_tail_marker : forall ss i, ss <> [] -> newest (app_tail ss [RSnap i]) = N.max (newest ss) i.
 Proof.
-  intros. unfold newest. rewrite app_tail_recs by auto. rewrite markers_app, maxN_app. simpl. lia.
+  intros. unfold newest. rewrite app_tail_recs by auto. rewrite pmarkers_app, maxN_app. simpl. lia.
 Qed.
 
 Lemma pinv_marker : forall s s' hi i,
@@ -351,7 +663,7 @@ Proof.
   intros s s' hi i P Es Eu Esf Eck Eac Epr Li Lc Hnew.
   pose proof (pinv_segs_nonempty _ _ P) as Hne.
   pose proof (pinv_lc0 _ _ P) as Hlc0.
-  destruct P as [C Ha Hp Ht Hh Hcm Hni Hf Hfile Hz Hnd Hfl Hck Hloc].
+  destruct P as [C Ha Hp Ht Hh Hcm Hni Hf Hfile Hz Hnd Hfl Hck Hjm].
   destruct Ht as [pre [sl [body [tl [Ess [Esl [Etl [Hst Hhead]]]]]]]].
   constructor; rewrite ?Es, ?Esf, ?Eck, ?Eac, ?Epr, ?Eu; auto.
   - rewrite lo_of_app_tail. eapply seg_chain_app_tail; eauto.
@@ -379,14 +691,16 @@ Proof.
   - rewrite newest_app_tail_marker by auto.
     intros j Hj. assert (j = 0%nat) by lia. subst j. rewrite drop_tail_0.
     rewrite app_tail_recs by auto. rewrite last_commit_nostate by reflexivity. lia.
-  - rewrite newest_app_tail_marker by auto. rewrite app_tail_recs by auto. rewrite markers_app.
+  - rewrite newest_app_tail_marker by auto. rewrite app_tail_recs by auto. rewrite pmarkers_app.
     apply in_or_app. destruct (N.max_spec (newest (segs s)) i) as [[_ ->]|[_ ->]]; [right; left; reflexivity | left; exact Hni].
   - rewrite newest_app_tail_marker by auto. rewrite hd_first_app_tail. lia.
   - rewrite newest_app_tail_marker by auto. intros Hpos.
     destruct (N.max_spec (newest (segs s)) i) as [[Hlt ->]|[Hge ->]].
     + apply Hnew. exact Hlt.
     + apply Hfile. lia.
-  - apply local_app_tail; auto. reflexivity.
+  - intros f Hin. destruct (Hfl f Hin) as [A|A]; [left; exact A | right].
+    eapply (flushed_state_app_tail s s' [RSnap i]); eauto. rewrite Eu. lia.
+  - intros h m Hin. rewrite app_tail_recs, jumps_app in Hin by auto. simpl in Hin. rewrite app_nil_r in Hin. eauto.
 Qed.
 
 (* a cut: new tail segment named hi+1 beginning with the current hard state *)
@@ -400,9 +714,9 @@ Proof.
   intros s s' hi c P U0 Es Eu Esf Eck Eac Epr Ec.
   pose proof (pinv_segs_nonempty _ _ P) as Hne.
   pose proof (pinv_lc0 _ _ P) as Hlc0.
-  destruct P as [C Ha Hp Ht Hh Hcm Hni Hf Hfile Hz Hnd Hfl Hck Hloc].
+  destruct P as [C Ha Hp Ht Hh Hcm Hni Hf Hfile Hz Hnd Hfl Hck Hjm].
   assert (Hnw : newest (segs s ++ [mkSeg (hi + 1) [RState c]]) = newest (segs s)).
-  { unfold newest. rewrite all_recs_snoc, markers_app. simpl. rewrite app_nil_r. reflexivity. }
+  { unfold newest. rewrite all_recs_snoc, pmarkers_app. simpl. rewrite app_nil_r. reflexivity. }
   constructor; rewrite ?Es, ?Esf, ?Eck, ?Eac, ?Epr, ?Eu, ?Hnw; auto.
   - rewrite lo_of_snoc by auto. apply seg_chain_cut; auto.
   - exists (segs s), (mkSeg (hi + 1) [RState c]), [RState c], []. simpl. repeat split; eauto.
@@ -417,17 +731,19 @@ Proof.
       eapply Hh; eauto.
   - intros j Hj. assert (j = 0%nat) by lia. subst j. rewrite drop_tail_0.
     rewrite all_recs_snoc. simpl. rewrite last_commit_snoc_state. lia.
-  - rewrite all_recs_snoc, markers_app. simpl. rewrite app_nil_r. exact Hni.
+  - rewrite all_recs_snoc, pmarkers_app. simpl. rewrite app_nil_r. exact Hni.
   - unfold hd_first in *. destruct (segs s); [congruence|]. simpl. exact Hf.
-  - apply local_snoc_seg; auto. reflexivity.
+  - intros f Hin. destruct (Hfl f Hin) as [A|A]; [left; exact A | right].
+    intros j Hj. rewrite Eu in Hj. assert (j = 0%nat) by lia. subst j. rewrite Es, drop_tail_0, all_recs_snoc.
+    unfold has_state. rewrite existsb_app. simpl. apply orb_true_r.
+  - intros h m Hin. rewrite all_recs_snoc, jumps_app in Hin. simpl in Hin. rewrite app_nil_r in Hin. eauto.
 Qed.
 
 (* the purge of the oldest WAL segment *)
 Lemma has_state_cons : forall c rest, has_state (RState c :: rest) = true.
 Proof. reflexivity. Qed.
 
-Lemma has_state_app_l : forall a b, has_state a = true -> has_state (a ++ b) = true.
-Proof. intros. unfold has_state in *. rewrite existsb_app, H. reflexivity. Qed.
+
 
 Lemma pinv_purge_wal : forall s s' hi x y t,
   PInv s hi -> segs s = x :: y :: t -> segs s' = y :: t -> unflushed s' = unflushed s ->
@@ -436,20 +752,20 @@ Lemma pinv_purge_wal : forall s s' hi x y t,
   PInv s' hi /\ newest (segs s') = newest (segs s).
 Proof.
   intros s s' hi x y t P Ess Es Eu Esf Eck Eac Epr Hy.
-  destruct P as [C Ha Hp Ht Hh Hcm Hni Hf Hfile Hz Hnd Hfl Hck Hloc].
+  destruct P as [C Ha Hp Ht Hh Hcm Hni Hf Hfile Hz Hnd Hfl Hck Hjm].
   rewrite Ess in *.
   pose proof C as C0. destruct C as [mid [Ex [Lx [Mx [Fy Cy]]]]].
-  assert (Hin : In (newest (x :: y :: t)) (markers (all_recs (y :: t)))).
-  { rewrite all_recs_cons, markers_app in Hni. apply in_app_or in Hni. destruct Hni as [Hni|Hni]; auto.
+  assert (Hin : In (newest (x :: y :: t)) (pmarkers (all_recs (y :: t)))).
+  { rewrite all_recs_cons, pmarkers_app in Hni. apply in_app_or in Hni. destruct Hni as [Hni|Hni]; auto.
     apply Mx in Hni. lia. }
   assert (Hnw : newest (y :: t) = newest (x :: y :: t)).
-  { unfold newest in *. rewrite (all_recs_cons x), markers_app, maxN_app.
-    assert (maxN (markers (srecs x)) <= mid).
+  { unfold newest in *. rewrite (all_recs_cons x), pmarkers_app, maxN_app.
+    assert (maxN (pmarkers (srecs x)) <= mid).
     { assert (G : forall l, (forall i, In i l -> i <= mid) -> maxN l <= mid).
       { induction l; simpl; intros; [lia|]. assert (a <= mid) by (apply H; left; auto).
         assert (maxN l <= mid) by (apply IHl; intros; apply H; right; auto). lia. }
       apply G. exact Mx. }
-    rewrite (all_recs_cons x), markers_app, maxN_app in Hy. lia. }
+    rewrite (all_recs_cons x), pmarkers_app, maxN_app in Hy. lia. }
   split; [|rewrite Es; exact Hnw].
   destruct Ht as [pre [sl [body [tl [Esl0 [Esl [Etl [Hst Hhead]]]]]]]].
   assert (Hpre : exists pre', pre = x :: pre').
@@ -457,34 +773,94 @@ Proof.
     injection Esl0 as -> _. eauto. }
   destruct Hpre as [pre' ->]. simpl in Esl0. injection Esl0 as Esl0.
   destruct (Hhead ltac:(congruence)) as [c0 [b' Eb]].
-  constructor; rewrite ?Es, ?Esf, ?Eck, ?Eac, ?Epr, ?Eu, ?Hnw; auto.
-  - eapply seg_chain_tl; eauto.
-  - exists pre', sl, body, tl. repeat split; auto. intros _. eauto.
-  - intros pre0 x0 post Esp Hpre0. apply (Hh (x :: pre0) x0 post); [rewrite Esp; reflexivity | congruence].
-  - intros j Hj. specialize (Hcm j Hj). rewrite drop_tail_cons2, all_recs_cons in Hcm.
-    rewrite last_commit_suffix in Hcm; [exact Hcm|].
-    (* the remaining segments begin with a flushed hard state *)
-    rewrite Esl0. destruct pre' as [|p1 pre''].
+  (* the remaining segments begin with a flushed hard state *)
+  assert (Hhs : forall j, (j <= unflushed s)%nat -> has_state (all_recs (drop_tail (y :: t) j)) = true).
+  { intros j Hj. rewrite Esl0. destruct pre' as [|p1 pre''].
     + simpl. unfold all_recs. simpl. rewrite app_nil_r, Esl, Eb.
       rewrite app_length. replace (length (RState c0 :: b') + length tl - j)%nat with (length (RState c0 :: b') + (length tl - j))%nat by lia.
       rewrite firstn_app_2. reflexivity.
     + destruct (Hh [x] p1 (pre'' ++ [sl]) ltac:(rewrite Esl0; reflexivity) ltac:(congruence)) as [c1 [r1 E1]].
       change ((p1 :: pre'') ++ [sl]) with (p1 :: (pre'' ++ [sl])).
       destruct (pre'' ++ [sl]) eqn:Q; [destruct pre''; discriminate|].
-      rewrite drop_tail_cons2, all_recs_cons, E1. reflexivity.
-  - apply (local_tl (x :: y :: t)). exact Hloc.
+      rewrite drop_tail_cons2, all_recs_cons, E1. reflexivity. }
+  constructor; rewrite ?Es, ?Esf, ?Eck, ?Eac, ?Epr, ?Eu, ?Hnw; auto.
+  - eapply seg_chain_tl; eauto.
+  - exists pre', sl, body, tl. repeat split; auto. intros _. eauto.
+  - intros pre0 x0 post Esp Hpre0. apply (Hh (x :: pre0) x0 post); [rewrite Esp; reflexivity | congruence].
+  - intros j Hj. specialize (Hcm j Hj). rewrite drop_tail_cons2, all_recs_cons in Hcm.
+    rewrite last_commit_suffix in Hcm; [exact Hcm|]. apply Hhs. exact Hj.
+  - intros f Hfin. right. intros j Hj. rewrite Es. apply Hhs. rewrite <- Eu. exact Hj.
+  - intros h m Hjin. apply (Hjm h m). rewrite all_recs_cons, jumps_app. apply in_or_app. right. exact Hjin.
+Qed.
+
+(* the crash images after the purge of the oldest segment keep their hard states and their last commit *)
+Lemma purge_views : forall s hi x y t, PInv s hi -> segs s = x :: y :: t ->
+  forall j, (j <= unflushed s)%nat ->
+    has_state (all_recs (drop_tail (y :: t) j)) = true
+    /\ last_commit (all_recs (drop_tail (y :: t) j)) = last_commit (all_recs (drop_tail (x :: y :: t) j)).
+Proof.
+  intros s hi x y t P Ess j Hj.
+  destruct P as [C Ha Hp Ht Hh Hcm Hni Hf Hfile Hz Hnd Hfl Hck Hjm].
+  rewrite Ess in *.
+  destruct Ht as [pre [sl [body [tl [Esl0 [Esl [Etl [Hst Hhead]]]]]]]].
+  assert (Hpre : exists pre', pre = x :: pre').
+  { destruct pre as [|p0 pre']; simpl in Esl0; [injection Esl0 as _ E; discriminate|].
+    injection Esl0 as -> _. eauto. }
+  destruct Hpre as [pre' ->]. simpl in Esl0. injection Esl0 as Esl0.
+  destruct (Hhead ltac:(congruence)) as [c0 [b' Eb]].
+  assert (Hhs : has_state (all_recs (drop_tail (y :: t) j)) = true).
+  { rewrite Esl0. destruct pre' as [|p1 pre''].
+    + simpl. unfold all_recs. simpl. rewrite app_nil_r, Esl, Eb.
+      rewrite app_length. replace (length (RState c0 :: b') + length tl - j)%nat with (length (RState c0 :: b') + (length tl - j))%nat by lia.
+      rewrite firstn_app_2. reflexivity.
+    + destruct (Hh [x] p1 (pre'' ++ [sl]) ltac:(rewrite Esl0; reflexivity) ltac:(congruence)) as [c1 [r1 E1]].
+      change ((p1 :: pre'') ++ [sl]) with (p1 :: (pre'' ++ [sl])).
+      destruct (pre'' ++ [sl]) eqn:Q; [destruct pre''; discriminate|].
+      rewrite drop_tail_cons2, all_recs_cons, E1. reflexivity. }
+  split; [exact Hhs|]. rewrite drop_tail_cons2, (all_recs_cons x). symmetry. apply last_commit_suffix. exact Hhs.
+Qed.
+
+(* the raft loop's clause when the oldest WAL segment is purged *)
+Lemma rd_inv_purge_wal : forall s s' hi x y t,
+  PInv s hi -> rd_inv s hi -> segs s = x :: y :: t -> segs s' = y :: t -> unflushed s' = unflushed s ->
+  rdp s' = rdp s -> rs_last s' = rs_last s -> published s' = published s -> wstate s' = wstate s -> hcommit s' = hcommit s ->
+  proposed s' = proposed s -> ckpts s' = ckpts s -> snapfiles s' = snapfiles s -> newest (segs s') = newest (segs s) -> app s' = app s -> rd_inv s' hi.
+Proof.
+  intros s s' hi x y t P H Ess Es Eu E3 E4 E5 E6 E7 E8 E10 E11 En Eap.
+  pose proof (purge_views s hi x y t P Ess) as PV.
+  assert (H1 : last_commit (all_recs (segs s')) = last_commit (all_recs (segs s))).
+  { rewrite Es, Ess. destruct (PV 0%nat ltac:(lia)) as [_ X]. rewrite !drop_tail_0 in X. exact X. }
+  assert (H2 : forall i0, lc_all_lt s i0 -> lc_all_lt s' i0).
+  { intros i0 L j Hj. rewrite Eu in Hj. rewrite Es. destruct (PV j Hj) as [_ X]. rewrite X, <- Ess. apply L. exact Hj. }
+  assert (H3 : flushed_state s').
+  { intros j Hj. rewrite Eu in Hj. rewrite Es. apply PV. exact Hj. }
+  assert (H4 : forall i0, snap_tail s hi i0 -> snap_tail s' hi i0).
+  { intros i0 [pre [sl [a [b [T1 [T2 T3]]]]]]. rewrite Ess in T1.
+    destruct pre as [|p0 pre']; simpl in T1; [injection T1 as _ E; discriminate|]. injection T1 as -> T1.
+    exists pre', sl, a, b. rewrite Es, T1. auto. }
+  assert (H5 : forall i0 : N, (forall j, (0 < j <= unflushed s)%nat -> last_commit (all_recs (drop_tail (segs s) j)) < i0) ->
+               (forall j, (0 < j <= unflushed s')%nat -> last_commit (all_recs (drop_tail (segs s') j)) < i0)).
+  { intros i0 L j Hj. rewrite Eu in Hj. rewrite Es. destruct (PV j ltac:(lia)) as [_ X]. rewrite X, <- Ess. apply L. exact Hj. }
+  unfold rd_inv, window, snapfacts, ckpt_ok, pubcl, rlast in *.
+  rewrite E3, E4, E5, E6, E7, E8, E10, E11, H1, En, Eap.
+  destruct (rdp s) as [|r sv pb|r pb apd|r pb idx|r|r fl|r|r k]; auto.
+  - destruct (0 <? r_snap r); destruct sv; intuition.
+  - destruct (0 <? r_snap r); destruct apd; intuition.
+  - destruct (0 <? r_snap r); [exact H|]. rewrite Eu. exact H.
+  - intuition.
+  - intuition.
 Qed.
 
 (* changes of the snap directory and of the checkpoint directory only *)
 Lemma pinv_files : forall s s' hi,
   PInv s hi -> segs s' = segs s -> unflushed s' = unflushed s -> acked s' = acked s -> proposed s' = proposed s ->
   (0 < newest (segs s) -> In (newest (segs s)) (snapfiles s') /\ lookup (newest (segs s)) (ckpts s') = Some (range 0 (newest (segs s)))) ->
-  ~ In 0 (snapfiles s') -> NoDup (snapfiles s') -> (forall f, In f (snapfiles s') -> f <= hi) ->
+  ~ In 0 (snapfiles s') -> NoDup (snapfiles s') -> (forall f, In f (snapfiles s') -> f <= hi \/ flushed_state s) ->
   (forall i l, lookup i (ckpts s') = Some l -> l = range 0 i) ->
   PInv s' hi.
 Proof.
-  intros s s' hi [] E1 E2 E3 E4 H1 H2 H3 H5 H4.
-  constructor; rewrite ?E1, ?E2, ?E3, ?E4; auto.
+  intros s s' hi [] E1 E2 E3 E4 H1 H2 H3 H5 H4. unfold flushed_state in *.
+  constructor; unfold flushed_state; rewrite ?E1, ?E2, ?E3, ?E4; auto.
 Qed.
 
 (* a process death: j buffered hard states never reached the file *)
@@ -508,7 +884,7 @@ Lemma pinv_crash : forall s s' hi j,
   PInv s' hi /\ newest (segs s') = newest (segs s).
 Proof.
   intros s s' hi j P Hj Es Eu Esf Eck Eac Epr.
-  destruct P as [C Ha Hp Ht Hh Hcm Hni Hf Hfile Hz Hnd Hfl Hck Hloc].
+  destruct P as [C Ha Hp Ht Hh Hcm Hni Hf Hfile Hz Hnd Hfl Hck Hjm].
   destruct Ht as [pre [sl [body [tl [Ess [Esl [Etl [Hst Hhead]]]]]]]].
   assert (Hdrop : drop_tail (segs s) j = pre ++ [mkSeg (sfirst sl) (body ++ firstn (length tl - j) tl)]).
   { rewrite Ess, drop_tail_snoc, Esl, firstn_app_states by lia. reflexivity. }
@@ -517,8 +893,8 @@ Proof.
   { rewrite Hdrop, all_recs_snoc. reflexivity. }
   assert (Hrec0 : all_recs (segs s) = all_recs pre ++ body ++ tl).
   { rewrite Ess, all_recs_snoc, Esl. reflexivity. }
-  assert (Hmk : markers (all_recs (drop_tail (segs s) j)) = markers (all_recs (segs s))).
-  { rewrite Hrec, Hrec0, !markers_app, !(markers_states _ Hst), !(markers_states _ Hst'). reflexivity. }
+  assert (Hmk : pmarkers (all_recs (drop_tail (segs s) j)) = pmarkers (all_recs (segs s))).
+  { rewrite Hrec, Hrec0, !pmarkers_app, !(pmarkers_states _ Hst), !(pmarkers_states _ Hst'). reflexivity. }
   assert (Hnw : newest (drop_tail (segs s) j) = newest (segs s)) by (unfold newest; rewrite Hmk; reflexivity).
   split; [|rewrite Es; exact Hnw].
   constructor; rewrite ?Es, ?Esf, ?Eck, ?Eac, ?Epr, ?Eu, ?Hnw; auto.
@@ -528,7 +904,7 @@ Proof.
     eapply seg_chain_ext; eauto.
     + apply drop_tail_firsts.
     + rewrite Hdrop, Ess, !map_app. f_equal. simpl. rewrite Esl, !entries_app, (entries_states _ Hst), (entries_states _ Hst'). reflexivity.
-    + rewrite Hdrop, Ess, !map_app. f_equal. simpl. rewrite Esl, !markers_app, (markers_states _ Hst), (markers_states _ Hst'). reflexivity.
+    + rewrite Hdrop, Ess, !map_app. f_equal. simpl. rewrite Esl, !pmarkers_app, (pmarkers_states _ Hst), (pmarkers_states _ Hst'). reflexivity.
   - rewrite Hdrop. exists pre, (mkSeg (sfirst sl) (body ++ firstn (length tl - j) tl)), (body ++ firstn (length tl - j) tl), [].
     simpl. rewrite app_nil_r. repeat split; auto.
     intros Hp'. destruct (Hhead Hp') as [c0 [b' Eb]]. rewrite Eb. simpl. eauto.
@@ -548,6 +924,103 @@ Proof.
   - unfold hd_first in *. rewrite Hdrop.
     assert (HH : sfirst (hd (mkSeg 0 []) (pre ++ [sl])) <= newest (segs s)) by (rewrite <- Ess; exact Hf).
     destruct pre; simpl in *; exact HH.
-  - apply local_drop_tail. exact Hloc.
+  - intros f Hfin. destruct (Hfl f Hfin) as [A|A]; [left; exact A | right].
+    intros j' Hj'. rewrite Eu in Hj'. assert (j' = 0%nat) by lia. subst j'. rewrite Es, drop_tail_0. apply A. exact Hj.
+  - intros h m Hjin. apply (Hjm h m). rewrite Hrec0. rewrite Hrec in Hjin.
+    rewrite !jumps_app in *. rewrite (jumps_local _ (local_states _ Hst')) in Hjin. rewrite (jumps_local _ (local_states _ Hst)). exact Hjin.
 Qed.
 
+
+(* ---------- the record of an incoming snapshot becomes valid ---------- *)
+
+Lemma last_commit_mid : forall x v h i y, last_commit (x ++ RSnapIn v h i :: y) = last_commit (x ++ RSnapIn (negb v) h i :: y).
+Proof. intros. rewrite !last_commit_app. reflexivity. Qed.
+
+Lemma has_state_mid : forall x v h i y, has_state (x ++ RSnapIn v h i :: y) = has_state (x ++ y).
+Proof. intros. unfold has_state. rewrite !existsb_app. reflexivity. Qed.
+
+Lemma maxN_le : forall l m, (forall x, In x l -> x <= m) -> maxN l <= m.
+Proof. induction l; simpl; intros; [lia|]. assert (a <= m) by (apply H; left; auto). assert (maxN l <= m) by (apply IHl; intros; apply H; right; auto). lia. Qed.
+
+Lemma pinv_validate : forall s s' hi i,
+  PInv s hi -> snap_tail s hi i -> hi < i -> i <= proposed s ->
+  segs s' = validated i (segs s) -> unflushed s' = 0%nat ->
+  i <= last_commit (all_recs (segs s)) ->
+  In i (snapfiles s) -> ckpt_ok s i ->
+  snapfiles s' = snapfiles s -> ckpts s' = ckpts s -> acked s' = acked s -> proposed s' = proposed s ->
+  PInv s' i /\ newest (segs s') = i
+  /\ last_commit (all_recs (segs s')) = last_commit (all_recs (segs s))
+  /\ (forall u, In u (unvalidated (all_recs (segs s'))) -> In u (unvalidated (all_recs (segs s))))
+  /\ (forall m, In m (pmarkers (all_recs (segs s'))) <-> m = i \/ In m (pmarkers (all_recs (segs s))))
+  /\ map sfirst (segs s') = map sfirst (segs s).
+Proof.
+  intros s s' hi i P [pre [sl [a [b [Ess [Esl Hb]]]]]] Hlt Hpr Es Eu Hlc Hfile Hck Esf Eck Eac Epr.
+  pose proof (pinv_newest_le_hi _ _ P) as Hnh.
+  destruct P as [C Ha Hp Ht Hh Hcm Hni Hf Hfil Hz Hnd Hfl Hckp Hjm].
+  assert (Es' : segs s' = pre ++ [mkSeg (sfirst sl) (a ++ RSnapIn true hi i :: b)]).
+  { rewrite Es. unfold validated. rewrite Ess, validate_segs_snoc, Esl, validate_recs_found by exact Hb. reflexivity. }
+  assert (Eo : all_recs (segs s) = (all_recs pre ++ a) ++ RSnapIn false hi i :: b).
+  { rewrite Ess, all_recs_snoc, Esl, app_assoc. reflexivity. }
+  assert (En : all_recs (segs s') = (all_recs pre ++ a) ++ RSnapIn true hi i :: b).
+  { rewrite Es', all_recs_snoc. simpl. rewrite app_assoc. reflexivity. }
+  assert (Hpm : forall m, In m (pmarkers (all_recs (segs s'))) <-> m = i \/ In m (pmarkers (all_recs (segs s)))).
+  { intros m. rewrite En, Eo, !pmarkers_mid. simpl. rewrite !in_app_iff. simpl. intuition. }
+  assert (Hold : forall m, In m (pmarkers (all_recs (segs s))) -> m <= hi).
+  { intros m Hm. eapply seg_chain_markers; eauto. }
+  assert (Hnw : newest (segs s') = i).
+  { unfold newest. apply N.le_antisymm.
+    - apply maxN_le. intros x Hx. apply Hpm in Hx. destruct Hx as [->|Hx]; [lia | specialize (Hold x Hx); lia].
+    - apply maxN_ge. apply Hpm. left. reflexivity. }
+  assert (Hlcs : last_commit (all_recs (segs s')) = last_commit (all_recs (segs s))).
+  { rewrite En, Eo. apply (last_commit_mid _ true). }
+  split; [|split; [exact Hnw|split; [exact Hlcs|split; [|split; [exact Hpm|]]]]].
+  - constructor; rewrite ?Esf, ?Eck, ?Eac, ?Epr, ?Hnw, ?Eu; auto.
+    + (* chain *)
+      rewrite Es'. replace (lo_of (pre ++ [mkSeg (sfirst sl) (a ++ RSnapIn true hi i :: b)])) with (lo_of (segs s)).
+      2:{ rewrite Ess. unfold lo_of. destruct pre; reflexivity. }
+      apply seg_chain_validate; auto. rewrite Ess in C at 2. destruct sl as [f0 r0]. simpl in *. subst r0. exact C.
+    + lia.
+    + (* tail *)
+      exists pre, (mkSeg (sfirst sl) (a ++ RSnapIn true hi i :: b)), (a ++ RSnapIn true hi i :: b), []. rewrite app_nil_r.
+      split; [exact Es'|]. split; [reflexivity|]. split; [reflexivity|]. split; [reflexivity|].
+      intros Hpre. destruct (Hh pre sl [] Ess Hpre) as [c0 [rest Er]]. rewrite Esl in Er.
+      destruct a as [|a0 a']; simpl in Er; [discriminate|]. injection Er as -> Er. simpl. eauto.
+    + (* heads *)
+      intros pre0 x post Esp Hpre0. rewrite Es' in Esp.
+      destruct post as [|y post'].
+      * apply app_inj_tail in Esp. destruct Esp as [Ep Ex]. subst pre0 x. simpl.
+        destruct (Hh pre sl [] Ess Hpre0) as [c0 [rest Er]]. rewrite Esl in Er.
+        destruct a as [|a0 a']; simpl in Er; [discriminate|]. injection Er as -> Er. simpl. eauto.
+      * assert (Hl : y :: post' <> []) by congruence.
+        rewrite (app_removelast_last (mkSeg 0 []) Hl) in Esp.
+        change (pre0 ++ x :: (removelast (y :: post') ++ [last (y :: post') (mkSeg 0 [])])) with
+               (pre0 ++ (x :: removelast (y :: post')) ++ [last (y :: post') (mkSeg 0 [])]) in Esp.
+        rewrite app_assoc in Esp. apply app_inj_tail in Esp. destruct Esp as [Ep _].
+        apply (Hh pre0 x (removelast (y :: post') ++ [sl])); [|exact Hpre0].
+        rewrite Ess, Ep, <- app_assoc. reflexivity.
+    + intros j Hj. assert (j = 0%nat) by lia. subst j. rewrite drop_tail_0, Hlcs. exact Hlc.
+    + apply Hpm. left. reflexivity.
+    + assert (Hhd : hd_first (segs s') = hd_first (segs s)) by (unfold hd_first; rewrite Es', Ess; destruct pre; reflexivity).
+      rewrite Hhd. lia.
+    + intros f Hfin. destruct (Hfl f Hfin) as [A|A]; [left; lia | right].
+      intros j Hj. assert (j = 0%nat) by lia. subst j. rewrite drop_tail_0, En, has_state_mid.
+      specialize (A 0%nat ltac:(lia)). rewrite drop_tail_0, Eo, has_state_mid in A. exact A.
+    + intros h m Hin. rewrite En in Hin. unfold jumps in Hin. rewrite flat_map_app in Hin. simpl in Hin.
+      apply in_app_or in Hin. destruct Hin as [Hin|[Hin|Hin]].
+      * apply (Hjm h m). rewrite Eo. unfold jumps. rewrite flat_map_app. apply in_or_app. left. exact Hin.
+      * injection Hin as <- <-. exact Hlt.
+      * apply (Hjm h m). rewrite Eo. unfold jumps. rewrite flat_map_app. apply in_or_app. right. simpl. exact Hin.
+  - intros u Hu. rewrite En in Hu. rewrite Eo. unfold unvalidated in *. rewrite flat_map_app in *. simpl in *.
+    apply in_app_or in Hu. apply in_or_app. destruct Hu as [Hu|Hu]; [left; exact Hu | right; right; exact Hu].
+  - rewrite Es', Ess, !map_app. reflexivity.
+Qed.
+
+(* dropping buffered hard states does not touch the incoming markers *)
+Lemma drop_tail_unvalidated : forall s hi j, PInv s hi -> (j <= unflushed s)%nat ->
+  unvalidated (all_recs (drop_tail (segs s) j)) = unvalidated (all_recs (segs s)).
+Proof.
+  intros s hi j P Hj. destruct (p_tail _ _ P) as [pre [sl [body [tl [Ess [Esl [Etl [Hst _]]]]]]]].
+  assert (Hst' : forallb is_state (firstn (length tl - j) tl) = true) by (apply forallb_firstn; exact Hst).
+  rewrite Ess, drop_tail_snoc, Esl, firstn_app_states by lia. rewrite !all_recs_snoc. simpl. rewrite Esl.
+  rewrite !unvalidated_app. rewrite (unvalidated_local _ (local_states _ Hst)), (unvalidated_local _ (local_states _ Hst')). reflexivity.
+Qed.
